@@ -1969,7 +1969,12 @@ fn main() {
     }
 
     let cases = enumerate(args.tier);
-    let (small, big): (Vec<Case>, Vec<Case>) = cases.into_iter().partition(|c| c.big_glyphs.is_none());
+    let (mut small, big): (Vec<Case>, Vec<Case>) = cases.into_iter().partition(|c| c.big_glyphs.is_none());
+    if args.tier == vcore::Tier::Thorough {
+        // the quick tier's cases first, so that a time cap cuts the extended alphabet, not the core
+        let core: std::collections::BTreeSet<String> = enumerate(vcore::Tier::Quick).iter().map(|c| c.id()).collect();
+        small.sort_by_key(|c| !core.contains(&c.id()));
+    }
     let threads = vcore::ncores().max(2);
     // wall-clock caps (the box is shared): cases beyond the cap are counted and reported, not judged
     let cap_s = args.tier.pick(280.0, 900.0);
